@@ -18,7 +18,13 @@ def main():
         P = Program(mir)
         env = Q.Env(P, spec.get("tier", "quick"))
         from mirsym import queries_sig as QS
-        fn = getattr(Q, "q_" + spec["q"], None) or getattr(QS, "q_" + spec["q"])
+        fn = getattr(Q, "q_" + spec["q"], None) or getattr(QS, "q_" + spec["q"], None)
+        if fn is None and spec["q"] in ("opcode", "step_error"):
+            from mirsym import queries_interp as QI
+            fn = getattr(QI, "q_" + spec["q"])
+        if fn is None:
+            from mirsym import queries_tmpl as QT
+            fn = getattr(QT, "q_" + spec["q"])
         kw = {k: v for k, v in spec.items() if k not in ("q", "tier")}
         qr = fn(env, **kw)
         res.update(qr.as_dict())
